@@ -31,6 +31,12 @@ func WhereOf(d *m.Design, meth *m.Method) map[string]string {
 	for _, p := range h.Cookies {
 		out[p.Attr] = "cookie"
 	}
+	// Basic credentials travel in the Authorization header
+	for _, c := range meth.Creds {
+		if c.Kind == "username" || c.Kind == "password" {
+			out[c.Attr] = "auth"
+		}
+	}
 	if h.Body != nil {
 		switch h.Body.Mode {
 		case "attr":
@@ -70,6 +76,9 @@ func RespWhereOf(d *m.Design, meth *m.Method, r *m.Response) map[string]string {
 func LocFor(where string) Loc {
 	l := Loc{Where: where, MustSetDefaults: true}
 	switch where {
+	case "auth":
+		l.Where = "header"
+		l.NoEmpty = true
 	case "query", "header", "cookie":
 		l.NoEmpty = kf.Open("C02-empty-string-is-absent")
 	case "path":
